@@ -739,3 +739,41 @@ func runMergeOrderNeedsSortedParents(c *Ctx, rule string) {
 		c.Undecided(rule, "propagateSortKeyOp", "no return in the Merge case found")
 	}
 }
+
+// ---- C07-K3 / C08-K3: after a cut only a copy of the sort key is ordered.
+func runCutOrderFromCopies(c *Ctx, rule string) {
+	p := c.P
+	c.Rule(rule, "analyzeCuts reports an output field of a cut as ordered only if an assignment copies the sort key into it: its scoreboard is filled from assignment left-hand sides only, never seeded with the input's key (the output of a cut has only the assigned fields — a cut that does not mention the key loses the order with it)")
+	fn := p.Func("compiler/optimizer.analyzeCuts")
+	if fn == nil {
+		c.Undecided(rule, "compiler/optimizer.analyzeCuts", "anchor does not resolve")
+		return
+	}
+	var keysParam *ssa.Parameter
+	for _, prm := range fn.Params {
+		if namedOf(prm.Type()) == "order.SortKeys" {
+			keysParam = prm
+		}
+	}
+	n, bad := 0, token.NoPos
+	for _, b := range fn.Blocks {
+		for _, in := range b.Instrs {
+			mu, ok := in.(*ssa.MapUpdate)
+			if !ok {
+				continue
+			}
+			n++
+			if keysParam != nil && dependsOn(mu.Key, func(v ssa.Value) bool { return v == ssa.Value(keysParam) }) {
+				bad = mu.Pos()
+			}
+		}
+	}
+	switch {
+	case n == 0:
+		c.Undecided(rule, "compiler/optimizer.analyzeCuts", "no scoreboard update found")
+	case bad.IsValid():
+		c.Fail(rule, "compiler/optimizer.analyzeCuts scoreboard", bad, "the scoreboard is seeded with the input's sort key: a cut that does not mention the key (`cut x`) is still reported as ordered on it, so the cut is lifted into the legs of a parallel scan and the legs are merged on a field that no longer exists — the output comes out in object-sized chunks out of order")
+	default:
+		c.OK(rule, "compiler/optimizer.analyzeCuts scoreboard", fn.Pos(), "filled from assignment left-hand sides only")
+	}
+}
